@@ -478,9 +478,12 @@ func (d *drv) mint(s step) {
 			case 3: // right key, other nonce
 				sg = signer.Sign(toSign(ethTxn, amount, s.N+1, rcv.ID))
 			case 4: // right key, other receiver
-				o := c.ID
-				if o == rcv.ID {
-					o = d.w.Clients[2].ID
+				o := d.w.Owner.ID
+				for _, k := range d.w.Clients {
+					if k.ID != rcv.ID {
+						o = k.ID
+						break
+					}
 				}
 				sg = signer.Sign(toSign(ethTxn, amount, s.N, o))
 			case 5: // right key, other burn reference
